@@ -51,7 +51,7 @@ def check(ctx: Ctx) -> None:
     from ..engines.typestate import check_wrappers
     check_wrappers(ctx, ['pad', 'cutoff', 'scale', 'set_channel'])
     from ..engines.pairing import check_pairings     # cutoff reads notes through the pairing table
-    ctx.floor("pairing-table cases decided", check_pairings(ctx), 14)
+    ctx.floor("pairing-table cases decided", check_pairings(ctx), 16)
 
 
 def _check(ctx: Ctx, only=None) -> None:
